@@ -41,38 +41,37 @@ Fixpoint sep_comps (lens : list Z) (sels : list (Z * Z * bool)) (vals : list (li
   | _, _, _ => []
   end.
 
-(* slice one table with the items of its own axes *)
-Definition slice_table (items : list item) (t : table) : result (table + table) :=   (* inl kept | inr dropped *)
+(* slice one table with the items of its own axes: (the table if it is still attached to some axis,
+   the coordinates that stopped being axis-attached, as dropped pseudo-tables holding one value each) *)
+Definition slice_table (items : list item) (t : table) : result (option table * list table) :=
   let its := map (item_at items) (taxes t) in
   match map2r sel_axis (tlens t) its with
   | Err e => Err e
   | Ok sels =>
       let surv := map (fun it => negb (is_int it)) its in
+      let gone := map is_int its in
       let new_axes := map (fun ax => ax - n_dropped items ax) (keep_where surv (taxes t)) in
       let new_lens := sels_shape sels in
       match tkind_ t with
       | KJoint =>
           let t' := mkT (tid t) KJoint new_axes new_lens (tnames t)
                         (map (select_box 0%Q (tlens t) sels) (tvals t)) in
-          if forallb is_int its then Ok (inr t') else Ok (inl t')
+          if forallb is_int its then Ok (None, [t']) else Ok (Some t', [])
       | KSep =>
           let comps := sep_comps (tlens t) sels (tvals t) in
           let t' := mkT (tid t) KSep new_axes new_lens (keep_where surv (tnames t)) (keep_where surv comps) in
-          if forallb is_int its then Ok (inr (mkT (tid t) KSep [] [] (tnames t) comps)) else Ok (inl t')
+          let d' := mkT (tid t) KSep [] [] (keep_where gone (tnames t)) (keep_where gone comps) in
+          if forallb is_int its then Ok (None, [d'])
+          else Ok (Some t', if existsb is_int its then [d'] else [])
       end
   end.
 
-Fixpoint partition_sum {A B} (l : list (A + B)) : list A * list B :=
-  match l with
-  | [] => ([], [])
-  | inl a :: r => let '(x, y) := partition_sum r in (a :: x, y)
-  | inr b :: r => let '(x, y) := partition_sum r in (x, b :: y)
-  end.
+Definition opt_list {A} (o : option A) : list A := match o with Some x => [x] | None => [] end.
 
 Definition ec_getitem (items : list item) (e : ec) : result ec :=
   match mapr (slice_table items) (tables e) with
   | Err er => Err er
-  | Ok l => let '(kept, drp) := partition_sum l in Ok (mkEc kept (dropped e ++ drp))
+  | Ok l => Ok (mkEc (flat_map (fun r => opt_list (fst r)) l) (dropped e ++ flat_map snd l))
   end.
 
 (* ExtraCoords.mapping: array axes reflected to pixel axes, tables in order *)
